@@ -537,6 +537,36 @@ func run(c *core.Ctx) {
 			return
 		}
 	}
+	// count ladder: side / row / column counts around every power of two (a table filled in blocks, a
+	// chunked loop, a 16-bit vertex id lie far above the exhaustive grids)
+	kc, ks := 13, 11
+	if c.Thorough() {
+		kc, ks = 15, 12
+	}
+	c.Bound("count_ladder", fmt.Sprintf("cylinder sides 2^k-1, 2^k, 2^k+1 for k=5..%d (with and without UVs); UV sphere, unwelded sphere and hemisphere with 3 rows x n columns and n rows x 4 columns for n = 2^k-1, 2^k, 2^k+1, k=5..%d", kc, ks))
+	for k := 5; k <= kc; k++ {
+		for _, n := range []int{1<<k - 1, 1 << k, 1<<k + 1} {
+			for _, uv := range []string{"none", "all"} {
+				if c.Next() {
+					one(c, Case{Kind: "cylinder", Sides: n, R: 1, H: 0.5, UV: uv})
+				}
+			}
+			if k > ks {
+				continue
+			}
+			for _, kind := range []string{"uvsphere", "uvsphere-unwelded", "hemisphere"} {
+				if c.Next() {
+					one(c, Case{Kind: kind, Rows: 3, Cols: n, R: 1, Capped: true})
+				}
+				if c.Next() {
+					one(c, Case{Kind: kind, Rows: n, Cols: 4, R: 1, Capped: true})
+				}
+			}
+		}
+		if c.Expired() {
+			return
+		}
+	}
 	// magnitude: a cross-section of the grids at sizes from 2^-20 to 2^20 and 1e-6 to 1e6 (every tolerance
 	// of the oracle is relative to the solid's size; an absolute epsilon, rounding or clamp inside a
 	// constructor shows only here)
